@@ -1,10 +1,10 @@
 (* Single entry point of the executable model: function number, then its arguments. *)
 From Coq Require Import List ZArith.
-From PGA Require Import Wire WireCont WireMisc WireDissim WireAlign2 WireFast WireSampler WireHeap.
+From PGA Require Import Wire WireCont WireMisc WireDissim WireAlign2 WireFast WireSampler WireHeap WireIo.
 Import ListNotations.
 Local Open Scope Z_scope.
 
-Definition run (s : list Z) : list Z :=
+Definition run_model (s : list Z) : list Z :=
   match s with
   | f :: r =>
     if f <? 0 then [-3]
@@ -16,6 +16,7 @@ Definition run (s : list Z) : list Z :=
     else if f <? 600 then run_fast (Z.to_nat (f - 500)) r
     else if f <? 700 then run_sampler (Z.to_nat (f - 600)) r
     else if f <? 800 then run_heap (Z.to_nat (f - 700)) r
+    else if f <? 900 then run_io (Z.to_nat (f - 800)) r
     else [-2]
   | [] => [-3]
   end.
